@@ -263,6 +263,7 @@ PROPS = {
         "level_text": "Decides the storage discipline of the inline/external overlay for all functions touching identifier._val/_base (23 reads/writes) on every path.",
         "level_note": "identity comparisons of _base (address-type identifiers in mpt_node_locate) are not content reads",
         "rules": [
+            {"run": rules_lin.run_linident, "floor": 18, "use_anchor_files": True},
             {"run": rules_ident.run_inlinefit, "floor": 5},
             {"run": rules_ident.run_identoverlay, "floor": 15},
             {"run": rules_ident.run_narrow, "floor": 3, "use_anchor_files": True, "ctx": {"records": ["mpt_identifier", "identifier"]}},
